@@ -57,6 +57,12 @@ add('C10',
     'Histories and schedules are not enumerated: these are necessary conditions (each one\'s violation gives a concrete failing interleaving), not a proof of linearizability. Trusts threading.RLock and WeakKeyDictionary.',
     'DESIGN.md section 4, C10')
 
+add('C15',
+    'interprocedural taint analysis from the source getters to the parser with an allow-list of line-local operations; bound analysis of line slices through reaching definitions and guards; mandatory-edge (dominating decision) analysis of every return of _parse_lambda on its statement CFG; grow-only typestate of the candidate lists; call-shape checks of the immediate-source getter and linecache repair',
+    'Decides the structural part: on the way from inspect/linecache to ast.parse the recovered text is only split, sliced inside a line\'s own leading whitespace (bound derived from that line\'s whitespace match or an INDENT token), joined and prefixed; context-free whole-text edits are reported (one is a listed known finding, F7); every lambda return is dominated by a len(list)==1 test of the list it was unpacked from, other paths raise the documented error, candidate lists only grow and the whole module is parsed; the getter uses findsource/getblock under the lock and repairs linecache with the owning module\'s namespace.',
+    'Trusts tokenize, inspect and linecache; does not decide AST equality for every layout.',
+    'DESIGN.md section 4, C15')
+
 NOT_APPLICABLE = {
     'C12': 'quantifies over run-time tracebacks, generated line layout and source-map contents, which exist only after the pipeline has run on a program; the only shape-level clause (exception re-creation table) is too small a part to claim the property through (DESIGN.md section 5)',
 }
